@@ -208,7 +208,7 @@ def evidence_from_trace(pid, traces):
                 distinct.add(h)
     return evals, len(distinct), samples
 
-def conn_property(pid, tier, seed, models, drivers, assumptions, design_ref):
+def conn_property(pid, tier, seed, models, drivers, assumptions, design_ref, extra_fn=()):
     t0 = time.time()
     known = [k for k in V.load_known() if k["property"] == pid]
     violations, known_hits, oop = [], [], 0
@@ -257,6 +257,22 @@ def conn_property(pid, tier, seed, models, drivers, assumptions, design_ref):
             else:
                 oop += 1
     evals, distinct, samples = evidence_from_trace(pid, [c["trace"] for c in cres])
+    fres = []
+    for i, g in enumerate(extra_fn):
+        fr = fn_conformance(pid, tier, seed, g, "%s-fn-%d" % (pid, i))
+        fres.append(fr)
+        evals += fr["events"]
+        distinct += fr["events"]
+        for m in fr["mismatches"]:
+            if set(m.get("fields", [])) & FN_PROJ[pid]:
+                case = json.loads(open(fr["cases"]).read().split("\n")[m["id"]])
+                sig = "fn|%s|%s" % (case["e"], ",".join(m["fields"]))
+                violations.append((sig, V.save_replay(pid, {"property": pid, "level": "fn", "case": case, "signature": sig, "mismatch": m})))
+            else:
+                oop += 1
+        for c in fr["crashes"]:
+            sig = "fn|%s|crash" % c["case"].get("e")
+            violations.append((sig, V.save_replay(pid, {"property": pid, "level": "fn", "case": c["case"], "signature": sig, "mismatch": {"crash": c["rc"]}})))
     cov = {
         "states": sum(r["distinct"] for r in mres) + sum(c["states"] for c in cres),
         "transitions": sum(r["states_generated"] for r in mres) + sum(c["events"] for c in cres),
@@ -269,7 +285,8 @@ def conn_property(pid, tier, seed, models, drivers, assumptions, design_ref):
         "models": [{"name": r["name"], "cfg": r["cfg"], "distinct_states": r["distinct"], "states_generated": r["states_generated"],
                     "depth": r["depth"], "witnesses_reached": r["witnesses"], "reused_from_cache": r.get("cached", False), "wall_s": r.get("wall_s")} for r in mres],
         "conformance": [{"build": c["kind"], "generator": c["gen"], "scripts": c["nscripts"], "trace_events_validated": c["events"],
-                         "mismatches": len(c["mismatches"]), "crashes": len(c["crashes"])} for c in cres],
+                         "mismatches": len(c["mismatches"]), "crashes": len(c["crashes"])} for c in cres]
+                       + [{"generator": "fn:" + f["gen"], "cases": f["ncases"], "validated": f["events"], "mismatches": len(f["mismatches"]), "crashes": len(f["crashes"])} for f in fres],
         "out_of_projection": oop,
         "known_findings_hit": len(known_hits),
         "design_ref": design_ref,
@@ -299,7 +316,7 @@ def conn_models(tier, extra=()):
 TABLE = {
     "C01": lambda tier, seed: conn_property("C01", tier, seed, conn_models(tier), [("small", "C01"), ("full", "C01")], CONN_ASSUME, "DESIGN.md 6 C01"),
     "C02": lambda tier, seed: conn_property("C02", tier, seed, conn_models(tier), [("full", "C02")], CONN_ASSUME, "DESIGN.md 6 C02"),
-    "C03": lambda tier, seed: conn_property("C03", tier, seed, conn_models(tier), [("full", "C03"), ("small", "C03")], CONN_ASSUME, "DESIGN.md 6 C03"),
+    "C03": lambda tier, seed: conn_property("C03", tier, seed, conn_models(tier), [("full", "C03"), ("small", "C03")], CONN_ASSUME, "DESIGN.md 6 C03", extra_fn=["C03"]),
     "C04": lambda tier, seed: conn_property("C04", tier, seed, conn_models(tier), [("full", "C04"), ("small", "C04")], CONN_ASSUME, "DESIGN.md 6 C04"),
     "C06": lambda tier, seed: conn_property("C06", tier, seed, [], [("full", "C06")], CONN_ASSUME, "DESIGN.md 6 C06"),
     "C11": lambda tier, seed: conn_property("C11", tier, seed, conn_models(tier), [("full", "C11"), ("small", "C11")], CONN_ASSUME, "DESIGN.md 6 C11"),
@@ -520,6 +537,190 @@ TABLE.update({
     "C08": lambda tier, seed: srv_property("C08", tier, seed, ["srv_quick", "srv_progs", "srv_live"], [("full", "C08", 300, 3000), ("small", "C08", 200, 2000)], SRV_ASSUME, "DESIGN.md 6 C08"),
 })
 
+# ---------------------------------------------------------------------------
+# function-level properties
+# ---------------------------------------------------------------------------
+FN_CFG = """SPECIFICATION Spec
+CONSTANTS
+  BUF = 1024
+POSTCONDITION Accepted
+CHECK_DEADLOCK FALSE
+"""
+FN_PROJ = {
+    "C03": {"panic"},
+    "C05": {"bytes", "split", "accessors", "selfdelimiting", "panic"},
+    "C14": {"one_ok", "one_req", "one_err", "agree_fwd", "agree_bwd", "panic"},
+    "C15": {"results", "headers", "ok", "err", "res", "panic"},
+    "C16": {"res", "raw", "ok", "path", "panic"},
+    "C17": {"added", "invoked", "response", "panic"},
+}
+FN_RULES = {
+    "C03": "one case = one byte string through one public parsing entry point; non-trivial = the string is non-empty; distinct by hash of (function, input)",
+    "C05": "one case = (version, status, sequence of builder calls, sink sizes); non-trivial = at least one builder call; distinct by hash of the case",
+    "C14": "one case = one byte slice through BOTH real parsers (plus optional max length); non-trivial = at least one of the two parsers accepts; distinct by hash of the slice",
+    "C15": "one case = a header line list / header block / encoding value; non-trivial = contains a recognised header name or a fault; distinct by hash of the input",
+    "C16": "one case = one byte string through one token/URI function; non-trivial = non-empty input; distinct by hash of (function, input)",
+    "C17": "one case = (prefix, registration sequence, 8 requests); non-trivial = at least one route registered; distinct by hash of the case",
+}
+
+def fn_nontrivial(pid, ev):
+    if pid == "C05":
+        return len(ev["resp"]["ops"]) > 0
+    if pid == "C14":
+        o = ev.get("out") or {}
+        return bool(o) and (o["one"]["ok"] or len(o["conn"]["popped"]) > 0)
+    if pid == "C17":
+        return len(ev["routes"]) > 0
+    if pid == "C15":
+        return True
+    return len(ev.get("bytes", ev.get("uri", [1]))) > 0
+
+def fn_conformance(pid, tier, seed, gen, tag):
+    binpath = V.build_harness("full")
+    cases = os.path.join(V.WORK, "%s.cases" % tag)
+    trace = os.path.join(V.WORK, "%s.trace" % tag)
+    with open(cases, "w") as f:
+        p = subprocess.run([binpath, "gen-fn", gen, tier, str(seed)], stdout=f, stderr=subprocess.PIPE, timeout=900)
+    if p.returncode != 0:
+        raise V.ToolError("generator %s failed" % gen)
+    t0 = time.time()
+    crashes = []
+    lines = [l for l in open(cases).read().split("\n") if l.strip()]
+    start = 0
+    open(trace, "w").close()
+    while start < len(lines):
+        part = os.path.join(V.WORK, "fnpart.cases")
+        open(part, "w").write("\n".join(lines[start:]) + "\n")
+        tmp = trace + ".part"
+        try:
+            with open(part) as fin, open(tmp, "w") as fout:
+                pr = subprocess.run([binpath, "exec-fn"], stdin=fin, stdout=fout, stderr=subprocess.PIPE, timeout=900)
+            rc = pr.returncode
+        except subprocess.TimeoutExpired:
+            rc = -1
+        done = 0
+        with open(tmp) as f, open(trace, "a") as out:
+            for line in f:
+                if line.endswith("\n"):
+                    out.write(line)
+                    done += 1
+        if rc == 0:
+            break
+        culprit = start + done
+        if culprit >= len(lines):
+            break
+        crashes.append({"rc": rc, "case": json.loads(lines[culprit])})
+        start = culprit + 1
+        if len(crashes) > 20:
+            raise V.ToolError("fn executor keeps crashing")
+    t_exec = time.time() - t0
+    t0 = time.time()
+    res = V.validate_trace("Trace_Fn.tla", FN_CFG, trace, tag, timeout_s=1500, boundary='"e":')
+    errors = [r for r in res if r["error"]]
+    if errors:
+        raise V.ToolError("trace validation failed to run: %s (%s)" % (errors[0]["error"], errors[0]["shard"]))
+    mism = [m for r in res for m in r["mismatches"]]
+    events = sum(r["consumed"] for r in res)
+    V.log("%s/%s: %d cases, %d validated (exec %.1fs, TLC %.1fs), %d mismatches, %d crashes" % (tag, gen, len(lines), events, t_exec, time.time() - t0, len(mism), len(crashes)))
+    return {"gen": gen, "cases": cases, "trace": trace, "mismatches": mism, "crashes": crashes, "events": events, "ncases": len(lines),
+            "states": sum(r["states"] for r in res)}
+
+def fn_property(pid, tier, seed, models, gens, assumptions, design_ref, extra_conn=None):
+    t0 = time.time()
+    known = [k for k in V.load_known() if k["property"] == pid]
+    violations, known_hits, oop = [], [], 0
+    mres = []
+    for mname in models:
+        module, cfg, tmo, need = MODELS[mname]
+        r = V.run_model(mname, module, cfg, tmo, need=need)
+        mres.append(r)
+        if r["violated"]:
+            path = V.save_replay(pid, {"property": pid, "level": "model", "model": mname, "violated": r["violated"], "log": "work/tlc-%s.log" % mname})
+            violations.append(("model:%s:%s" % (mname, r["violated"]), path))
+    cres = [fn_conformance(pid, tier, seed, g, "%s-fn-%d" % (pid, i)) for i, g in enumerate(gens)]
+    proj = FN_PROJ[pid]
+    evals, distinct, samples = 0, set(), []
+    for cr in cres:
+        byid = {}
+        for m in cr["mismatches"]:
+            mine = set(m.get("fields", [])) & proj
+            if not mine:
+                oop += 1
+                continue
+            if m["id"] in byid:
+                continue
+            byid[m["id"]] = (m, mine)
+        caselines = None
+        for cid, (m, mine) in list(byid.items())[:50]:
+            if caselines is None:
+                caselines = open(cr["cases"]).read().split("\n")
+            case = json.loads(caselines[cid])
+            sig = "fn|%s|%s" % (case["e"], ",".join(sorted(mine)))
+            hit = [k for k in known if re.search(k["signature"], sig)]
+            if hit:
+                known_hits.append((hit[0], sig))
+                continue
+            path = V.save_replay(pid, {"property": pid, "level": "fn", "case": case, "signature": sig, "mismatch": m})
+            violations.append((sig, path))
+        for c in cr["crashes"]:
+            sig = "fn|%s|crash" % c["case"].get("e")
+            path = V.save_replay(pid, {"property": pid, "level": "fn", "case": c["case"], "signature": sig, "mismatch": {"crash": c["rc"]}})
+            if "panic" in proj:
+                violations.append((sig, path))
+        with open(cr["trace"]) as f:
+            for line in f:
+                ev = json.loads(line)
+                evals += 1
+                if fn_nontrivial(pid, ev):
+                    h = hashlib.sha256(json.dumps({k: v for k, v in ev.items() if k not in ("out", "id", "panic")}, sort_keys=True).encode()).hexdigest()
+                    if h not in distinct and len(samples) < 3 and evals % 7 == 0:
+                        samples.append(short(ev))
+                    distinct.add(h)
+    extra = []
+    if extra_conn:
+        extra = [conn_conformance(pid, tier, seed, kind, gen, "%s-%s-%d" % (pid, kind, i)) for i, (kind, gen) in enumerate(extra_conn)]
+    cov = {
+        "states": sum(r["distinct"] for r in mres) + sum(c["states"] for c in cres),
+        "transitions": sum(r["states_generated"] for r in mres) + sum(c["events"] for c in cres),
+        "traces_validated_against_impl": evals,
+        "samples": samples or [short(json.loads(open(cres[0]["trace"]).readline()))],
+        "evaluations": evals,
+        "distinct_nontrivial": len(distinct),
+        "rule": FN_RULES[pid],
+        "exhaustive": False,
+        "models": [{"name": r["name"], "cfg": r["cfg"], "distinct_states": r["distinct"], "states_generated": r["states_generated"],
+                    "witnesses_reached": r["witnesses"], "reused_from_cache": r.get("cached", False)} for r in mres],
+        "conformance": [{"generator": c["gen"], "cases": c["ncases"], "validated": c["events"], "mismatches": len(c["mismatches"]), "crashes": len(c["crashes"])} for c in cres],
+        "out_of_projection": oop, "known_findings_hit": len(known_hits), "design_ref": design_ref,
+    }
+    V.write_evidence(pid, tier, seed, cov, time.time() - t0, len(violations), assumptions)
+    for k, sig in known_hits[:10]:
+        print("KNOWN-FINDING: property=%s %s [%s]" % (pid, k["text"], sig))
+    if violations:
+        shown = set()
+        for sig, path in violations:
+            if sig in shown or len(shown) >= 5:
+                continue
+            shown.add(sig)
+            print("VIOLATION property=%s replay=%s" % (pid, path))
+            V.log("  signature:", sig)
+        return 1
+    print("OK property=%s tier=%s evaluations=%d distinct_nontrivial=%d wall=%.0fs" % (pid, tier, evals, len(distinct), time.time() - t0))
+    return 0
+
+FN_ASSUME = [
+    "TLC and the CommunityModules Json/IOUtils modules are correct",
+    "the operators of HttpLex/HttpResp/OneShot/Router are the intended meaning (function transcription: TLA+ contributes the oracle, TLC its evaluation)",
+    "code-level results hold for the enumerated/generated inputs only",
+]
+TABLE.update({
+    "C05": lambda tier, seed: fn_property("C05", tier, seed, [], ["C05"], FN_ASSUME, "DESIGN.md 6 C05"),
+    "C14": lambda tier, seed: fn_property("C14", tier, seed, [], ["C14"], FN_ASSUME, "DESIGN.md 6 C14"),
+    "C15": lambda tier, seed: fn_property("C15", tier, seed, [], ["C15"], FN_ASSUME, "DESIGN.md 6 C15"),
+    "C16": lambda tier, seed: fn_property("C16", tier, seed, [], ["C16"], FN_ASSUME, "DESIGN.md 6 C16"),
+    "C17": lambda tier, seed: fn_property("C17", tier, seed, [], ["C17"], FN_ASSUME, "DESIGN.md 6 C17"),
+})
+
 def run(pid, tier, seed):
     if pid not in TABLE:
         raise V.ToolError("no check for " + pid)
@@ -552,5 +753,44 @@ def replay(path):
             print("VIOLATION property=%s replay=%s" % (pid, path))
             return 1
         print("replay: no divergence (property %s holds on this input)" % pid)
+        return 0
+    if d["level"] == "fn":
+        binpath = V.build_harness("full")
+        cp = os.path.join(V.WORK, "replay.cases")
+        c = dict(d["case"]); c["id"] = 0
+        open(cp, "w").write(json.dumps(c) + "\n")
+        tr = os.path.join(V.WORK, "replay.trace")
+        with open(cp) as fin, open(tr, "w") as fout:
+            pr = subprocess.run([binpath, "exec-fn"], stdin=fin, stdout=fout, timeout=120)
+        if pr.returncode != 0:
+            print("VIOLATION property=%s replay=%s" % (pid, path))
+            return 1
+        res = V.validate_trace("Trace_Fn.tla", FN_CFG, tr, "replay", nshards=1, boundary='"e":')
+        mism = [m for r in res for m in r["mismatches"]]
+        if mism:
+            print("MISMATCH", json.dumps(short(mism[0]))[:3000])
+            print("VIOLATION property=%s replay=%s" % (pid, path))
+            return 1
+        print("replay: no divergence (property %s holds on this input)" % pid)
+        return 0
+    if d["level"] == "srv":
+        kind = d["build"]
+        binpath = V.build_harness(kind)
+        sp = os.path.join(V.WORK, "replay.steps.json")
+        json.dump(d["steps"], open(sp, "w"))
+        tr = os.path.join(V.WORK, "replay.trace")
+        with open(tr, "w") as fout:
+            subprocess.run([binpath, "srv-replay", sp, os.path.join(V.WORK, "sock")], stdout=fout, timeout=120)
+        res = V.validate_trace("Trace_Srv.tla", srv_cfg(kind), tr, "replay", nshards=1, boundary='"e":"reset"')
+        for r in res:
+            if r["error"]:
+                print("TOOL-ERROR:", r["error"])
+                return 2
+        mism = [m for r in res for m in r["mismatches"]]
+        if mism:
+            print("MISMATCH", json.dumps(short(mism[0]))[:3000])
+            print("VIOLATION property=%s replay=%s" % (pid, path))
+            return 1
+        print("replay: no divergence (property %s holds on this history; note: kernel scheduling may differ between runs)" % pid)
         return 0
     raise V.ToolError("unknown replay level")
